@@ -33,6 +33,13 @@ ASSUMPTIONS = ['numpy elementwise arithmetic is trusted', 'positions closer to t
                'compiled pnpoly kernel is checked as built']
 
 
+STARS = {
+    'pentagram': ([0, 2.5, -4, 4, -2.5], [4, -3.25, 1.5, 1.5, -3.25]),
+    'heptagram': ([4, -1, -3.5, 2.5, 2.5, -3.5, -1], [0, 4, -1.75, -3, 3, 1.75, -4]),
+    'ring_twice': ([0, 4, 5, 1, 0, 4, 5, 1], [0, 0, 3, 4, 0, 0, 3, 4]),
+}
+
+
 def _angle_reps(tier):
     if tier == 'quick':
         degs = [0.0, 30.0, 123.4, 270.0, -60.0, 725.0]
@@ -98,6 +105,12 @@ def configs(tier):
         for s in scales:
             for c in C:
                 out.append(K.polygon_spec(name, s, c))
+    # star polygons: every turn has the same sign (like a convex polygon) but the boundary winds around the middle twice -- the
+    # even-odd rule puts the doubly enclosed core OUTSIDE; and a convex ring traversed twice (nothing inside at all)
+    for name, (xs, ys) in STARS.items():
+        for s in scales:
+            for c in C:
+                out.append({'cls': 'polygon', 'name': name, 'vertices': [[c[0] + s * v for v in xs], [c[1] + s * v for v in ys]]})
     for n in (3, 4, 5, 6, 8):
         for c in C:
             for r in S:
